@@ -21,12 +21,12 @@ read + unconfined-fallback mode. -/
 theorem C17_no_fallback (a : Bool) (t : List Char) : ∀ q ∈ bad, ¬ q <:+: runSteps (fullChain a) t := by
   intro q hq
   apply killedB_sound
-  cases a <;> revert q <;> decide
+  cases a <;> revert q <;> decide +kernel
 
 /-- Without the `fsp` task the fallback survives (the property is about `--full` builds only):
 the theorem above is not vacuous. -/
 theorem C17_fsp_needed : ∃ t q, q ∈ bad ∧ q <:+: runSteps (hotfix ++ abi3) t :=
-  ⟨"  @{bin}/a rPUx,\n".toList, "rpux,".toList, by decide, by decide +kernel⟩
+  ⟨"  @{bin}/a rPUx,\n".toList, "rpux,".toList, by decide +kernel, by decide +kernel⟩
 
 /-- block headers end in ` {`; exec rules never do -/
 def endsBrace (l : List Char) : Bool := " {".toList.isSuffixOf l
@@ -45,8 +45,8 @@ theorem C17_rule_lines (a : Bool) (t : List Char) (ls' : List (List Char))
     Rel2 (fun l o => endsBrace (runSteps (hotfix ++ fsp) l) = false →
         o = runSteps (fullChain a) l ∧ ∀ q ∈ bad, ¬ q <:+: o)
       (splitNl t) (splitNl (runSteps (if a then abi3 else []) (joinNl ls'))) := by
-  have hHF : stepsNoNl (hotfix ++ fsp) = true := by decide
-  have hA : stepsNoNl (if a then abi3 else []) = true := by cases a <;> decide
+  have hHF : stepsNoNl (hotfix ++ fsp) = true := by decide +kernel
+  have hA : stepsNoNl (if a then abi3 else []) = true := by cases a <;> decide +kernel
   -- lines of the text after hotfix; fsp
   have h1 : splitNl (runSteps (hotfix ++ fsp) t) = (splitNl t).map (runSteps (hotfix ++ fsp)) := by
     rw [runSteps_lines hHF t]
